@@ -7,7 +7,7 @@ TRUSTED_BASE = [
     "CasADi: numeric evaluation of a cyecca builder evaluates the instruction list the translator walks",
 ]
 
-SETUP_PRE = []
+SETUP_PRE = [["mkdir", "-p", ".work"], ["/venv/bin/python", "extract/c2coq.py", "--out", "coq/Gen/C09.v", "--report", ".work/c09_report.json"]]
 SOURCE_COMMITS = []     # guarded hook commits in /repo (none: the public API suffices)
 NOT_CLAIMED = {}        # pid -> reason, for properties deliberately not claimed
 SETUP_POST = []
@@ -72,6 +72,13 @@ prop("C15", stems=["Rdd2", "Loglinear", "SO3Quat"], props=["Props/C15.v"], falsi
      level_note=GEN_NOTE + "Adds Flocq (ZnearestE) and Interval (PI bound) to the trusted libraries for the yaw-range theorem.",
      technique="Coq proof (SSA slicing, lra/nra, Flocq rounding lemma, interval, induction over step lists) over a model regenerated from source",
      explanation="controller bounds for all gains/limits/states/inputs and all run lengths")
+
+prop("C09", stems=[], props=["Props/C09.v"], falsify="falsify_C09", level="translation_validation",
+     pre_build=[["mkdir", "-p", ".work"], ["/venv/bin/python", "extract/c2coq.py", "--out", "coq/Gen/C09.v", "--report", ".work/c09_report.json", "{thorough}"]],
+     level_text="Translation validation decided in the Coq kernel: for every function of every shipped equation set (estimator mrp and sim, rdd2, rdd2_loglinear, bezier incl. f_ref, mr_ref_traj; 35 functions, ~12.5k instructions) the straight-line body parsed from the generated C file equals, instruction by instruction including register numbers, constants (as exact doubles) and argument/result sizes, the instruction list CasADi's VM executes (vm_compute over decidable equality), hence computes the same outputs under EVERY interpretation of the primitive operations, NaN/Inf included (theorem same_programs_same_results). Every entry point is exercised; export tables are compared with the pinned function lists (nothing dropped/duplicated/renamed); accepted boolean generator options are enumerated (quick: default and every single flip; thorough: all 2^k) and must generate a complete function set. Supporting, not proof: gcc -std=c99 -Wall -Werror build and bit-for-bit ctypes-vs-CasADi comparison on random, tiny, zero and non-finite inputs. Known finding: the four generic generators reject with_mem=True under the installed CasADi.",
+     level_note="Trusted: Coq kernel (vm_compute); the regex parser extract/c2coq.py (fail-closed grammar of the C bodies CasADi prints); CasADi's instruction API and code generator as the two things being compared; gcc/libm for the differential run. Axiom-free.",
+     technique="translation validation: parsed C program = instruction list, decided by vm_compute in Coq, generic-semantics theorem",
+     explanation="C bodies vs instruction lists of all shipped functions")
 
 prop("C16", stems=["Quadrotor"], props=["Props/C16.v"], falsify="falsify_C16",
      level_text="Kernel-checked theorems over the regenerated real-number model of quadrotor.derive_model(): q.qdot=0, quaternion and position kinematics, hover equilibrium, free-fall accelerometer, rotor-sum wrench (Euler and Newton equations), motor first-order law, translation and yaw equivariance, for ALL states, inputs and parameter vectors (parameters are symbolic). Not proved: the exponential closed-form motor response (only the ODE right-hand side), drag-on branch of the force sum.",
